@@ -200,7 +200,7 @@ func scenarioBastion(t *traceWriter, rng *rand.Rand) {
 		w.wk = wkSets[rng.Intn(len(wkSets))]
 		lss := []*logState{
 			w.newLogState(fmt.Sprintf("bastion.example/%d/a", si), keyA, false),
-			w.newLogState(fmt.Sprintf("bastion.example/%d/b", si), keyA, rng.Intn(3) == 0),
+			w.newLogState(fmt.Sprintf("bastion.example/%d/b", si)+longOriginTail(si), keyA, rng.Intn(3) == 0),
 		}
 		// a third log that stays at size 0 (the placeholder branch of Update has its own code): only the script below names it
 		zeroLog := w.newLogState(fmt.Sprintf("bastion.example/%d/zero", si), keyA, false)
@@ -737,4 +737,13 @@ func scenarioProofFmt(t *traceWriter, rng *rand.Rand) {
 		err2 := reused.Unmarshal([]byte(m))
 		t.line("PFR proof=%s => m=%s u=%s", hxList(p), hx([]byte(m)), pfList(reused, err2))
 	}
+}
+
+// longOriginTail: one session in six configures its second log with an origin longer than a line reader's 4096-byte
+// buffer (still far below the request body cap): the endpoint must derive the same ID from it as everybody else.
+func longOriginTail(si int) string {
+	if si%6 != 4 {
+		return ""
+	}
+	return "/" + strings.Repeat("long-origin-", 345+si%7) // 4140+ bytes
 }
